@@ -290,7 +290,11 @@ func CheckC04(run *ev.Run) {
 			}
 			hdrRate, hdrTag := int64(r.Intn(50)), r.Pick([]string{"t1", "a b", "x,y"})
 			var wantPayload interface{}
+			noPayload := r.Chance(1, 5) // the handler returns the typed responder WITHOUT a payload (legal: the body is then empty)
 			switch {
+			case sc.Code == 200 && noPayload:
+				rb, _ := json.Marshal(map[string]interface{}{"X-Rate": hdrRate, "X-Tag": hdrTag})
+				sc.Responder = rb
 			case sc.Code == 200:
 				rb, _ := json.Marshal(map[string]interface{}{"body": body, "X-Rate": hdrRate, "X-Tag": hdrTag})
 				sc.Responder, wantPayload = rb, body
@@ -302,7 +306,9 @@ func CheckC04(run *ev.Run) {
 				wantPayload = t["body"]
 			case sc.Code == 201 && declared:
 			default:
-				if declared || o.dflt {
+				if (declared || o.dflt) && noPayload {
+					// typed responder, no payload
+				} else if declared || o.dflt {
 					rb, _ := json.Marshal(map[string]interface{}{"body": body})
 					sc.Responder, wantPayload = rb, body
 				} else {
